@@ -137,6 +137,7 @@ type hist struct {
 	forceName string
 	forceNum  *int64
 	fnCount   int
+	noTxn     bool
 }
 
 var namePool = []string{"cur", "CUR", "Cur", "c2", "C2", "kur"}
@@ -463,6 +464,12 @@ func (h *hist) stepDispose() {
 }
 
 func (h *hist) stepOpen() {
+	if !h.valid {
+		// after COMMIT / ROLLBACK the harness no longer knows the table: it cannot say what an OPEN
+		// must materialise, so no OPEN is issued (whoever the caller is)
+		h.stepStatus(-1)
+		return
+	}
 	name := h.pickName(false)
 	c, exists := h.curs[key(name)]
 	var rows []string
@@ -1025,6 +1032,14 @@ func (h *hist) stepDML() {
 			sql, kind = "DELETE FROM t;", "delete_all"
 			h.t = nil
 		default:
+			if h.noTxn {
+				// scripted histories go on to re-OPEN: keep the shadow valid
+				sql, kind = "UPDATE t SET v = 'q';", "update_all"
+				for i := range h.t {
+					h.t[i].vTok = strTok("q")
+				}
+				break
+			}
 			// transactions end: cursors are documented not to be affected.  The shadow is not
 			// trusted afterwards (no further OPEN in this history).
 			sql, kind = g.Pick("COMMIT;", "ROLLBACK;"), "txn"
@@ -1178,7 +1193,7 @@ func scripted(g *hc.Gen, o *hc.Out, dir string, seed int64) int {
 			{"next", 0}, {"dispose", 0}, {"next", 0}, {"open", 0}, {"close", 0}, {"dispose", 0}, {"isopen", 0}, {"fetchbad", 0}}},
 	}
 	for k, sc := range scripts {
-		h := &hist{g: g, o: o, dir: dir, seedTag: fmt.Sprintf("scripted history=%d", k)}
+		h := &hist{g: g, o: o, dir: dir, seedTag: fmt.Sprintf("scripted history=%d", k), noTxn: true}
 		h.setup(sc.file, sc.n)
 		h.stepDeclare("cur", sc.q)
 		h.forceName = "cur"
